@@ -205,7 +205,7 @@ def r_retrieve_tree(repo, rep, R, what):
                       '%s node label/symbol are %s / %s' % (k, show(b['op_string']), show(b['op_symbol'])))
             if rs is None:
                 continue
-            second = ('unop', '-', C(1)) if k == 'unary' else ('sym', 'cat-id-of', 'right')
+            second = C(-1) if k == 'unary' else ('sym', 'cat-id-of', 'right')
             okk = False
             detail = show(rs)
             if rs[0] == 'sub' and rs[2] == A(item, 'rule_id') and rs[1][0] == 'sub' and rs[1][1] == S(cache, C(0)):
